@@ -6,12 +6,12 @@ import (
 	"strconv"
 	"strings"
 
-	c "verif/harness/common"
 	"verif/harness/cmd/c02/ss"
+	c "verif/harness/common"
 )
 
 type OpSpec struct {
-	Kind  string // revtok revmtls revacme revssh | renew rekey renewssh rekeyssh
+	Kind  string // revtok revmtls revacme revssh | renew rekey renewtok renewssh rekeyssh
 	Cert  int    // index into the X.509 resp. SSH certificate pool
 	Spell int    // spelling of the serial in the request (revtok, revmtls, revssh)
 	Fault string // n | b (storage call fails before) | a (performed, caller sees failure) | c (CRL regeneration fails)
@@ -114,7 +114,7 @@ func runHist(h *Hist) (string, string) {
 			return kind, spellSerial(xs[op.Cert].crt.SerialNumber, op.Spell) // as sent; the model applies Validate
 		case "revssh":
 			return "rs", spellSSHSerial(sshs[op.Cert].crt.Serial, op.Spell) // as sent; the model applies Validate
-		case "renew", "rekey":
+		case "renew", "rekey", "renewtok":
 			return "nx", xs[op.Cert].crt.SerialNumber.String()
 		default:
 			return "ns", strconv.FormatUint(sshs[op.Cert].crt.Serial, 10)
@@ -155,6 +155,8 @@ func runHist(h *Hist) (string, string) {
 				code = e.renew(xs[op.Cert])
 			case "rekey":
 				code = e.rekey(xs[op.Cert])
+			case "renewtok":
+				code = e.renewByToken(xs[op.Cert])
 			case "renewssh":
 				code = e.renewSSH(sshs[op.Cert])
 			case "rekeyssh":
@@ -308,6 +310,9 @@ func cornerHists() []*Hist {
 		// revoke by token, renew, rekey, second revoke, restart, renew, second revoke by mTLS
 		{NX: 1, Ops: []OpSpec{{"renew", 0, 0, "n"}, {"revtok", 0, 1, "n"}, {"renew", 0, 0, "n"}, {"rekey", 0, 0, "n"}, {"revtok", 0, 0, "n"}, {"renew", 0, 0, "n"}, {"revmtls", 0, 0, "n"}},
 			Sched: append(append(seqSched(5), -1), 5, 5, 5, 6, 6, 6)},
+		// the renew-token route: allowed before, refused after the revocation, also after a restart and under a read fault
+		{NX: 2, Ops: []OpSpec{{"renewtok", 0, 0, "n"}, {"revmtls", 0, 0, "n"}, {"renewtok", 0, 0, "n"}, {"renewtok", 0, 0, "n"}, {"renewtok", 1, 0, "b"}, {"renewtok", 1, 0, "n"}},
+			Sched: append(append(seqSched(3), -1), 3, 3, 3, 4, 4, 4, 5, 5, 5)},
 		// every spelling of the serial hits the same record
 		{NX: 1, Ops: []OpSpec{{"revtok", 0, 3, "n"}, {"revtok", 0, 2, "n"}, {"revmtls", 0, 5, "n"}, {"revacme", 0, 0, "n"}, {"revtok", 0, 6, "n"}, {"revtok", 0, 7, "n"}, {"revtok", 0, 4, "n"}}, Sched: seqSched(7)},
 		// faults: before (nothing stored, 500), after (stored, 500), then a clean retry says already
@@ -341,7 +346,7 @@ func genHist(r *c.Rng) *Hist {
 			}
 		} else {
 			op.Cert = r.Intn(h.NX)
-			op.Kind = c.Pick(r, []string{"revtok", "revtok", "revmtls", "revacme", "renew", "renew", "rekey"})
+			op.Kind = c.Pick(r, []string{"revtok", "revtok", "revmtls", "revacme", "renew", "renew", "rekey", "renewtok"})
 			if op.Kind == "revtok" || op.Kind == "revmtls" {
 				op.Spell = r.Intn(8)
 			}
